@@ -58,6 +58,8 @@ MUTATIONS = [
      "(st->st_mode & S_IWOTH) &&", "(st->st_mode & S_IWGRP) &&"),
     ("M20", "Mod", MO, "_dir_permission_error", "owner test dropped for the alternative uid", "&& (st->st_uid != alt_uid))", "&& (st->st_uid != alt_uid || 1))"),
     ("M21", "Rcmd", RC, "find_host", "inverted match", "strcmp (x->hostname, hostname) == 0", "strcmp (x->hostname, hostname) != 0"),
+    ("M23", "Hostlist", HL, "host_prefix_end", ">= becomes >: index 0 never tested", "while (idx >= 0 && isdigit", "while (idx > 0 && isdigit"),
+    ("M24", "Hostlist", HL, "host_prefix_end", "off by one start", "int idx = strlen(hostname) - 1;", "int idx = strlen(hostname);"),
     ("M22", "Hostlist", HL, "_zero_padded", "leaves the subset: calls printf", "int n = 1;", "int n = 1; printf(\"x\");"),
 ]
 
@@ -77,6 +79,7 @@ HARMLESS = [
     ("H11", "Rcmd", RC, "find_host", "0 == x  instead of  x == 0", "strcmp (x->hostname, hostname) == 0", "0 == strcmp (x->hostname, hostname)"),
     # equal prefixes imply equal `singlehost` bits, so || and && agree where the test is reached: found by the bridge itself
     ("H13", "Hostlist", HL, "hostrange_within_range", "|| -> && (equivalent after prefix_cmp == 0)", "h1->singlehost || h2->singlehost ? 0 : 1", "h1->singlehost && h2->singlehost ? 0 : 1"),
+    ("H14", "Hostlist", HL, "host_prefix_end", "idx-- -> --idx", "idx--;", "--idx;"),
     ("H12", "Dsh", DS, "_thd_command_timeout", "nested ifs merged into one condition",
      "if ((command_timeout > 0) && (th->connect != ((time_t) -1))) {\n        if (th->connect + command_timeout < time (NULL))\n            return (1);\n    }",
      "if ((command_timeout > 0) && (th->connect != ((time_t) -1)) && (th->connect + command_timeout < time (NULL)))\n        return (1);"),
